@@ -95,7 +95,7 @@ type Case struct {
 	// multiform family only: the function body has several forms and a
 	// NON-last one (the "side form", whose shape is Shape) ends in a
 	// recursive call on one chosen turn of the loop.
-	Container string `json:"container,omitempty"` // body | let | progn | dotimes | lambda-funcall | lambda-apply
+	Container string `json:"container,omitempty"` // body | let | progn | dotimes | lambda-funcall | lambda-apply | walk
 	Layout    string `json:"layout,omitempty"`    // SM | SLM | LSM  (S side form, L log form, M main loop form)
 	Turn      string `json:"turn,omitempty"`      // first | second | last : the turn on which the side call is made
 	Target    string `json:"target,omitempty"`    // self | next : the function the side call calls
@@ -371,6 +371,9 @@ func recursive(c Case, k int) (rec string, macroBody string) {
 
 // Source renders the whole program.
 func Source(c Case) string {
+	if c.Family == "multiform" && c.Container == "walk" {
+		return sourceWalk(c)
+	}
 	if c.Family == "multiform" {
 		return sourceMulti(c)
 	}
@@ -840,5 +843,64 @@ func sourceClosure(c Case) string {
 		b.WriteString(d)
 	}
 	b.WriteString(top + "\n")
+	return b.String()
+}
+
+// ---------------------------------------------------------------------------
+// multiform, container "walk": STACK GROWTH as a dimension.
+//
+// An in-order walk of a thin tree whose left spine has N nodes: the left child
+// is reached by plain recursion from a NON-last body form (so N spine frames
+// are live while the call stack grows through every reallocation of its frame
+// slice), the right child by a tail call.  Node kinds (ty):
+//
+//	0  spine node S(k): left = S(k-1) if k > 0, right = R1(k)     [tail call]
+//	1  R1(k): no left child, right = R2(k)                        [tail call; in the
+//	          mutual variant R1 runs in f1 and R2 collapses back into S's frame]
+//	2  R2(k): left = Y(k) [plain recursion from the reused frame], no right child
+//	3  Y(k): leaf
+//
+// Every node appends its id 10k+ty to g-log when visited (in-order).  The walk
+// is made twice in the SAME runtime, and the case is always executed in a
+// FRESH runtime (the call stack has never been deeper than the prelude needs).
+func sourceWalk(c Case) string {
+	var b strings.Builder
+	b.WriteString("(set 'g-n 0) (set 'g-a 0) (set 'g-log ())\n")
+	loc := vars{n: "k", a: "ty"}
+	var defs []string
+	for k := 0; k < c.Topo; k++ {
+		self := fmt.Sprintf("f%d", k)
+		left := func(args ...string) string {
+			f := form{head: self, args: args, fn: true, bare: true, tail: -1}
+			for i := len(c.Shape) - 1; i >= 0; i-- {
+				f = wrap(c, c.Shape[i], 11+i, k, loc, f)
+			}
+			return f.String()
+		}
+		r1 := fmt.Sprintf("f%d", (k+1)%c.Topo) // R1 runs in the next function of the cycle
+		r2 := "f0"                             // R2 comes back to the spine's function
+		S := "(cond ((and (= ty 0) (> k 0)) " + left("(- k 1)", "0") + ") ((= ty 2) " + left("k", "3") + ") (else ()))"
+		L := "(set 'g-log (cons (+ (* k 10) ty) g-log))"
+		M := "(cond ((= ty 0) (" + r1 + " k 1)) ((= ty 1) (" + r2 + " k 2)) (else 'done))"
+		body := S + " " + L + " " + M
+		if c.Def == "labels" {
+			defs = append(defs, fmt.Sprintf(" [f%d (k ty) %s]\n", k, body))
+		} else {
+			defs = append(defs, fmt.Sprintf("(defun f%d (k ty) %s)\n", k, body))
+		}
+	}
+	run := fmt.Sprintf("(progn (set 'g-log ()) (set 'w1 (list (f0 %d 0) g-log)) (set 'g-log ()) (list w1 (f0 %d 0) g-log))", c.N, c.N)
+	if c.Def == "labels" {
+		b.WriteString("(labels (\n")
+		for _, d := range defs {
+			b.WriteString(d)
+		}
+		b.WriteString(" )\n " + run + ")\n")
+		return b.String()
+	}
+	for _, d := range defs {
+		b.WriteString(d)
+	}
+	b.WriteString(run + "\n")
 	return b.String()
 }
